@@ -56,7 +56,12 @@ def rules(model: Model, tier: str) -> List[RuleResult]:
     _hy = ac.hygiene_rules(model, ac.get_fncls(model, '_Quadrature'), PROP, min_copies=0, min_opt=2, min_conv=1, min_idx=3)
     from ..rules import substitution as _subst
     _sub = _subst.rules(model, PROP, tier)
-    return [R1, R2, R3, R4, R5, K, R6, I, Z, L, *_hy, *_sub]
+    # the tuple of vector-Jacobian products of the derivative integrand is flattened and unflattened by the same TensorPacker pair
+    # the forward uses for tuple-valued integrands (the nested quad goes through quad's wrapper)
+    from .c07 import _tensor_packer
+    Pk = RuleResult(PROP, "C13-P", "the derivative integrand is tuple-valued: TensorPacker segments tile the flat vector, flatten / pack are a single-exit inverse pair", min_instances=2)
+    _tensor_packer(model, Pk)
+    return [R1, R2, R3, R4, R5, K, R6, I, Z, L, Pk, *_hy, *_sub]
 
 
 # -------------------------------------------------------------------------------------------------
@@ -172,50 +177,81 @@ def _limits_roundtrip(fc, L: RuleResult):
         return
 
     def run_forward(xlT, xuT):
+        """final abstract environments of forward (one per outcome of the tests the interpreter cannot decide, e.g. `if _isinf(..)`).
+        A statement outside the vocabulary binds its targets to opaque values that are *different* from the limits (so a limit that
+        is transformed before it is stored no longer counts as the caller's limit); the tensor conversion of a limit keeps its identity."""
         from ..domains.dictsem import Tok, _Return
-        fi_ = DictInterp({"xl": Tok("XL", is_tensor=xlT), "xu": Tok("XU", is_tensor=xuT)})
-        for st in fstmts:
-            try:
-                fi_.run([st])
-            except (Unsupported, Raised, _Return):
-                if isinstance(st, (ast.If, ast.For, ast.While, ast.Try)):
-                    stored = {n.id for n in ast.walk(st) if isinstance(n, ast.Name) and isinstance(n.ctx, ast.Store)}
-                else:
-                    stored = {n.id for t in getattr(st, "targets", []) for n in ast.walk(t) if isinstance(n, ast.Name)}
-                    stored |= {ast.unparse(t) for t in getattr(st, "targets", []) if isinstance(t, ast.Attribute)}
-                for nm in stored:
-                    conv = isinstance(st, ast.Assign) and isinstance(st.value, ast.Call) and ast.unparse(st.value.func) in ("torch.as_tensor", "torch.tensor") \
-                        and st.value.args and ast.unparse(st.value.args[0]) == nm and nm in ("xl", "xu")
-                    if not conv:
-                        fi_.env.pop(nm, None)
-        return fi_
+        import copy as _copy
+
+        def opaque(st, env):
+            if isinstance(st, (ast.If, ast.For, ast.While, ast.Try, ast.With)):
+                stored = {n.id for n in ast.walk(st) if isinstance(n, ast.Name) and isinstance(n.ctx, ast.Store)}
+                stored |= {ast.unparse(n) for n in ast.walk(st) if isinstance(n, ast.Attribute) and isinstance(n.ctx, ast.Store)}
+            else:
+                tg = list(getattr(st, "targets", [])) + ([st.target] if isinstance(st, (ast.AugAssign, ast.AnnAssign)) else [])
+                stored = {n.id for t in tg for n in ast.walk(t) if isinstance(n, ast.Name)} | {ast.unparse(t) for t in tg if isinstance(t, ast.Attribute)}
+            for nm in stored:
+                conv = isinstance(st, ast.Assign) and isinstance(st.value, ast.Call) and ast.unparse(st.value.func) in ("torch.as_tensor", "torch.tensor") \
+                    and st.value.args and ast.unparse(st.value.args[0]) == nm and nm in ("xl", "xu")
+                if not conv:
+                    env[nm] = Tok("<%s after `%s`>" % (nm, norm_stmt(st, 40)))
+
+        def run_block(stmts, envs, depth=0):
+            for st in stmts:
+                nxt = []
+                for env in envs:
+                    it = DictInterp(env)
+                    if isinstance(st, ast.If) and depth < 3:
+                        try:
+                            tv = it.truth(st.test)
+                            nxt.extend(run_block(st.body if tv else st.orelse, [it.env], depth + 1))
+                        except (Unsupported, Raised, TypeError, AttributeError):
+                            # undecidable test: both arms are possible
+                            for arm in (st.body, st.orelse):
+                                nxt.extend(run_block(arm, [_copy.copy(env)], depth + 1))
+                        continue
+                    try:
+                        it.run([st])
+                        nxt.append(it.env)
+                    except (Unsupported, Raised, _Return, TypeError, AttributeError, KeyError, IndexError):
+                        e2 = dict(it.env)
+                        opaque(st, e2)
+                        nxt.append(e2)
+                envs = nxt[:8]
+            return envs
+        return run_block(fstmts, [{"xl": Tok("XL", is_tensor=xlT), "xu": Tok("XU", is_tensor=xuT)}])
     bad = None
     for xlT in (True, False):
         for xuT in (True, False):
             try:
-                fi_ = run_forward(xlT, xuT)
-                saved_first = None
-                for a in save[0].args:
-                    if isinstance(a, ast.Starred) and isinstance(a.value, ast.Name) and isinstance(fi_.env.get(a.value.id), (list, tuple)):
-                        saved_first = list(fi_.env[a.value.id])
-                        break
-                if saved_first is None:
-                    raise Unsupported("the list of limits handed to save_for_backward")
-                ctx_attrs = {k.replace(c_f + ".", c_b + ".", 1): v for k, v in fi_.env.items() if k.startswith(c_f + ".")}
-                env = dict(ctx_attrs)
-                env["%s.saved_tensors" % c_b] = tuple(saved_first + ["P1", "P2"])
-                env["%s.param_sep.ntensors()" % c_b] = 2
-                bi_ = _BackInterp(env, c_b)
-                bi_.run(bstmts)
-                got = (bi_.env.get("xl"), bi_.env.get("xu"))
+                finals = run_forward(xlT, xuT)
             except Unsupported as e:
                 L.undecided(bw, bw.node, "cannot interpret the pack / unpack of the limits (%s)" % e)
                 return
-            except Raised as e:
-                got = ("raises %s" % e, None)
-            names_ = tuple(getattr(g_, "name", g_) for g_ in got)
-            if names_ != ("XL", "XU") and bad is None:
-                bad = (xlT, xuT, names_)
+            for fenv in finals:
+                try:
+                    saved_first = None
+                    for a in save[0].args:
+                        if isinstance(a, ast.Starred) and isinstance(a.value, ast.Name) and isinstance(fenv.get(a.value.id), (list, tuple)):
+                            saved_first = list(fenv[a.value.id])
+                            break
+                    if saved_first is None:
+                        raise Unsupported("the list of limits handed to save_for_backward")
+                    ctx_attrs = {k.replace(c_f + ".", c_b + ".", 1): v for k, v in fenv.items() if k.startswith(c_f + ".")}
+                    env = dict(ctx_attrs)
+                    env["%s.saved_tensors" % c_b] = tuple(saved_first + ["P1", "P2"])
+                    env["%s.param_sep.ntensors()" % c_b] = 2
+                    bi_ = _BackInterp(env, c_b)
+                    bi_.run(bstmts)
+                    got = (bi_.env.get("xl"), bi_.env.get("xu"))
+                except Unsupported as e:
+                    L.undecided(bw, bw.node, "cannot interpret the pack / unpack of the limits (%s)" % e)
+                    return
+                except Raised as e:
+                    got = ("raises %s" % e, None)
+                names_ = tuple(getattr(g_, "name", g_) for g_ in got)
+                if names_ != ("XL", "XU") and bad is None:
+                    bad = (xlT, xuT, names_)
     if bad is None:
         L.ok(bw.fq, "the limits are re-assembled as (xl, xu) for all four tensor / non-tensor combinations (abstract evaluation of pack and unpack)")
     else:
